@@ -28,6 +28,14 @@ pub fn case_input(seed: u64, case: u64) -> (Problem, DefaultSettings<f64>) {
     o.nmax = *rng.choose(&[2, 5, 10]);
     o.mmax = *rng.choose(&[6, 15, 30]);
     o.psd_max = 4;
+    if rng.bool(0.15) {
+        // many cones of one kind (the header abbreviates lists of more than five dimensions)
+        let k = *rng.choose(&["SOC", "PSD", "Zero", "GenPow", "SOC"]);
+        o.kinds = vec![k, k, k, k, "NN"];
+        o.max_cones = 14;
+        o.mmax = 70;
+        o.psd_max = 3;
+    }
     let mut p = match rng.usize(0, 9) {
         0..=5 => gen::planted(&mut rng, &o).problem,
         6 | 7 => gen::primal_infeasible(&mut rng, &o).0,
@@ -383,7 +391,13 @@ pub fn run(ctx: &mut Ctx) {
                         Some((_, cnt, numel)) => {
                             let first_ok = numel.first().and_then(|x| x.parse::<usize>().ok()) == dims.first().copied();
                             let last_ok = numel.last().and_then(|x| x.parse::<usize>().ok()) == dims.last().copied();
-                            if *cnt != dims.len() || !first_ok || !last_ok || (dims.len() <= 5 && numel.len() != dims.len()) {
+                            // more than five: the first four, an ellipsis, the last one
+                            let long_ok = dims.len() <= 5
+                                || (numel.len() == 6 && numel[4] == "..." && (0..4).all(|t| numel[t].parse::<usize>().ok() == Some(dims[t])));
+                            if dims.len() > 5 {
+                                ctx.bump("abbreviated_cone_lists_checked");
+                            }
+                            if *cnt != dims.len() || !first_ok || !last_ok || !long_ok || (dims.len() <= 5 && numel.len() != dims.len()) {
                                 bad("cone_line_wrong", json!({"kind": k, "printed_count": cnt, "printed_numel": numel, "actual": dims}));
                             }
                         }
